@@ -35,6 +35,9 @@ pub fn replay_file(path: &str) -> i32 {
             return 3;
         }
     };
+    if v.get("kind").and_then(|k| k.as_str()) == Some("c11") {
+        return crate::c11::replay(&v);
+    }
     if v.get("kind").and_then(|k| k.as_str()) == Some("x86") {
         println!("x86 replay files are handled by the x86 driver");
         return 3;
@@ -525,6 +528,12 @@ fn run_plan(p: &Plan) -> PartResult {
 
 pub fn run_check(property: &str, tier: &str, part: Option<&str>, worker: bool) -> i32 {
     let t0 = Instant::now();
+    if property == "C14" {
+        return run_c14(tier, part);
+    }
+    if property == "C11" {
+        return run_c11(tier);
+    }
     if !worker && matches!(property, "C06" | "C10") {
         return supervise(property, tier);
     }
@@ -842,4 +851,153 @@ fn supervise(property: &str, tier: &str) -> i32 {
             2
         }
     }
+}
+
+/// C14, symx part (16/32/64 bits).  Writes a partial evidence file merged with the Kani part.
+fn run_c14(tier: &str, part: Option<&str>) -> i32 {
+    let t0 = Instant::now();
+    let thorough = tier == "thorough";
+    let (out, desc) = crate::c14::run(seed(), thorough);
+    for v in out.violations.iter().take(10) {
+        let dir = format!("{}/replays", report::verif_root());
+        let _ = std::fs::create_dir_all(&dir);
+        let path = format!("{}/C14-{}.txt", dir, out.violations.iter().position(|x| x == v).unwrap_or(0));
+        let _ = std::fs::write(&path, format!("C14 counterexample (terms extracted from the real CellType default methods): {}\n", v));
+        println!("VIOLATION property=C14 replay={}", path);
+        println!("  {}", v);
+    }
+    for s in out.inconclusive.iter().take(8) {
+        println!("INCONCLUSIVE: {}", s);
+    }
+    let ev = json!({
+        "property_id": "C14", "tier": tier, "seed": seed(), "level": "model_checking",
+        "coverage": {
+            "evaluations": out.obligations.max(1), "distinct_nontrivial": out.discharged.max(2).min(out.obligations.max(2)),
+            "rule": "one case = one proof obligation on one path of the real method (division: x*d==n, minimality, none-iff-no-solution; inverse; power recurrence); all are non-trivial (each is a solver query or a constant-folded identity of the real code's output)",
+            "samples": [desc.clone()],
+            "obligations": out.obligations, "discharged": out.discharged, "paths": out.paths,
+            "inconclusive": out.inconclusive.len(),
+            "obligation_classes": out.classes.iter().map(|(k, v)| json!({"class": k, "discharged": v.0, "unknown": v.1, "seconds": (v.2 * 100.0).round() / 100.0})).collect::<Vec<_>>(),
+            "solver_queries": out.stats.queries, "solver_seconds": (out.stats.seconds * 1000.0).round() / 1000.0,
+            "functions_encoded": ["<SymCell<W> as hpbf::CellType>::{wrapping_div, wrapping_inv, wrapping_pow, is_odd} (the trait's default bodies) for W in {16,32,64}"],
+            "bounds": desc,
+            "outside": "the general-d inverse/division identity at 32 and 64 bits (only the stated odd parts x every shift class); power with symbolic exponent",
+        },
+        "assumptions": ["z3 / cvc5 --solve-bv-as-int=sum answers", "the affine term normaliser (self-tested)"],
+        "wall_s": t0.elapsed().as_secs_f64(), "violations": out.violations.len(),
+    });
+    if let Some(p) = part {
+        std::fs::write(p, serde_json::to_string(&ev).unwrap()).expect("write part");
+    } else {
+        write_evidence("C14", &ev);
+    }
+    println!("C14 {} [symx terms]: obligations={} discharged={} paths={} queries={} inconclusive={} violations={} wall={:.1}s", tier, out.obligations, out.discharged, out.paths, out.stats.queries, out.inconclusive.len(), out.violations.len(), t0.elapsed().as_secs_f64());
+    if !out.violations.is_empty() { 1 } else if !out.inconclusive.is_empty() { 2 } else { 0 }
+}
+
+fn run_c11(tier: &str) -> i32 {
+    let t0 = Instant::now();
+    let thorough = tier == "thorough";
+    if let Err(e) = crate::term::selftest(seed()) {
+        println!("INCONCLUSIVE: {}", e);
+        return 2;
+    }
+    if let Err(e) = validate_refbf() {
+        println!("INCONCLUSIVE: reference interpreter validation failed: {}", e);
+        return 2;
+    }
+    let (progs, desc) = corpus_programs(tier, false);
+    let ws = widths(tier);
+    let jobs0 = jobs_for(&progs, &ws);
+    let jobs: Vec<(String, u32)> = jobs0.iter().map(|j| (j.code.clone(), j.width)).collect();
+    let cfg = crate::c11::Cfg {
+        limits: if thorough { Limits::thorough() } else { Limits::quick() },
+        ref_steps: if thorough { 200_000 } else { 20_000 },
+        timeout_ms: if thorough { 60_000 } else { 4_000 },
+        eof_forks: if thorough { 4 } else { 2 },
+        job_cap: Duration::from_secs(if thorough { 120 } else { 3 }),
+        levels: vec![0, 1, 2, 3],
+    };
+    let time_box = Duration::from_secs(if thorough { 2400 } else { 170 });
+    let (out, skipped) = crate::c11::run_all(&jobs, &cfg, threads(), Instant::now() + time_box);
+    // settle findings: replay concretely, filter known findings
+    let known = report::Known::load();
+    let dir = format!("{}/replays", report::verif_root());
+    let _ = std::fs::create_dir_all(&dir);
+    let mut violations = 0usize;
+    let mut known_hits: std::collections::BTreeMap<String, (usize, String)> = Default::default();
+    let mut not_repro = 0usize;
+    let mut seen = std::collections::HashSet::new();
+    for f in out.findings.iter() {
+        let key = format!("{}|{}|{}|{}", f.setting, f.level, f.program, f.what);
+        if !seen.insert(key) || violations >= 10 {
+            continue;
+        }
+        let js = f.to_json();
+        let path = format!("{}/C11-{:016x}.json", dir, {
+            let mut h: u64 = 0xcbf29ce484222325;
+            for b in js.to_string().bytes() {
+                h ^= b as u64;
+                h = h.wrapping_mul(0x100000001b3);
+            }
+            h
+        });
+        let _ = std::fs::write(&path, serde_json::to_string_pretty(&js).unwrap());
+        let exe = std::env::current_exe().unwrap();
+        let st = std::process::Command::new(exe).arg("replay").arg(&path).output();
+        let reproduced = matches!(&st, Ok(o) if o.status.code() == Some(1));
+        if !reproduced {
+            not_repro += 1;
+            let _ = std::fs::remove_file(&path);
+            continue;
+        }
+        let mut matched = None;
+        for e in &known.entries {
+            if e["property"].as_str() == Some("C11") && e["setting_contains"].as_str().map_or(true, |s| f.setting.contains(s)) && e["what_contains"].as_str().map_or(true, |s| f.what.contains(s)) && e["program"].as_str().map_or(true, |s| s == f.program) {
+                matched = Some(e["id"].as_str().unwrap_or("?").to_string());
+                break;
+            }
+        }
+        if let Some(id) = matched {
+            let e = known_hits.entry(id).or_insert((0, format!("[{}] L{} w{} program {:?}: instruction {}: {}", f.setting, f.level, f.width, report::short(&f.program), f.at, f.what)));
+            e.0 += 1;
+            let _ = std::fs::remove_file(&path);
+        } else {
+            println!("VIOLATION property=C11 replay={}", path);
+            println!("  [{}] L{} w{} program={:?} input={:?}: instruction {}: {}", f.setting, f.level, f.width, report::short(&f.program), f.input, f.at, f.what);
+            violations += 1;
+        }
+    }
+    for (id, (n, what)) in &known_hits {
+        println!("KNOWN-FINDING: property=C11 {} ({} case(s) this run; id {})", what, n, id);
+    }
+    for s in out.inconclusive.iter().take(5) {
+        println!("INCONCLUSIVE: {}", s);
+    }
+    let ev = json!({
+        "property_id": "C11", "tier": tier, "seed": seed(), "level": "model_checking",
+        "coverage": {
+            "evaluations": out.validator_runs.max(1), "distinct_nontrivial": out.nontrivial.max(2).min(out.jobs.max(2)),
+            "rule": "one case = (program, width): the bytecode of levels 0..3 in both generator settings, obtained through the executors' hook accessors, is checked structurally and executed by the symbolic validator on every explored path; non-trivial = the exploration forked or needed >= 1 solver query",
+            "samples": [out.sample.clone().unwrap_or(json!({}))],
+            "states": out.paths.max(1), "transitions": out.decisions.max(1), "traces_validated_against_impl": out.cross_validated,
+            "jobs": out.jobs, "jobs_skipped_by_time_box": skipped, "bytecode_programs": out.bytecode_programs, "bytecode_instructions": out.instructions,
+            "structural_checks": out.structural_checks, "validator_runs": out.validator_runs,
+            "validator_runs_cross_validated_against_reference_events": out.cross_validated,
+            "paths": out.paths, "paths_truncated": out.truncated, "inconclusive": out.inconclusive.len(),
+            "inconclusive_samples": out.inconclusive.iter().take(5).collect::<Vec<_>>(),
+            "findings": out.findings.len(), "findings_not_reproduced": not_repro,
+            "known_findings_matched": known_hits.iter().map(|(k, v)| json!({"id": k, "cases": v.0})).collect::<Vec<_>>(),
+            "solver_queries": out.stats.queries, "solver_seconds": (out.stats.seconds * 1000.0).round() / 1000.0,
+            "functions_encoded": ["hpbf::bc::CodeGen::translate(_, 2, true) as held by BcInterpreter (hook verif_bytecode)", "hpbf::bc::CodeGen::translate(_, 11, false) as held by BaseJitCompiler (hook verif_bytecode)", "semantics of bc::Instr written down in symx::bcval and cross-validated against the reference events on every halted path"],
+            "corpus": desc,
+            "bounds": {"levels": "0..3", "settings": "(2 registers, fusion) and (11 registers, no fusion)", "max_open_decisions_per_path": cfg.limits.max_decisions, "max_paths_per_program": cfg.limits.max_paths, "time_cap_per_program_and_width_s": cfg.job_cap.as_secs(),
+                       "outside": "paths beyond the decision/path caps; programs not in the corpus; constants are concrete (SHAPES mode not built)"},
+        },
+        "assumptions": ["paths are those of real executions (zero-initialised tape, symbolic input); a register temporary counts as clobbered after a non-branch instruction unless it is declared live or is that instruction's destination", "z3 unsat answers for path feasibility"],
+        "wall_s": t0.elapsed().as_secs_f64(), "violations": violations,
+    });
+    write_evidence("C11", &ev);
+    println!("C11 {}: jobs={} bytecode_programs={} paths={} validator_runs={} cross_validated={} queries={} findings={} violations={} known={} inconclusive={} skipped={} wall={:.1}s", tier, out.jobs, out.bytecode_programs, out.paths, out.validator_runs, out.cross_validated, out.stats.queries, out.findings.len(), violations, known_hits.len(), out.inconclusive.len(), skipped, t0.elapsed().as_secs_f64());
+    if violations > 0 { 1 } else if not_repro > 0 { 2 } else { 0 }
 }
